@@ -215,7 +215,25 @@ fn render_lines(ls: &[Line], eol: &str) -> String {
 // part 1: direct oracle (from the property text: "serialising any description the stack produced or
 // parsed and parsing it back yields the same description")
 // ------------------------------------------------------------------------------------------------
-const TRANSPORT_KEYS: [&str; 5] = ["ice-ufrag", "ice-pwd", "fingerprint", "setup", "candidate"];
+/// the keys the printer emits first: read from the regenerated Gen/SdpTables.v (translated from
+/// `MediaSection::write_lines` on every run) so that the class matcher follows the code
+static TRANSPORT_KEYS: std::sync::OnceLock<Vec<String>> = std::sync::OnceLock::new();
+fn transport_keys() -> &'static Vec<String> {
+    TRANSPORT_KEYS.get_or_init(|| {
+        let fallback = || ["ice-ufrag", "ice-pwd", "fingerprint", "setup", "candidate"].iter().map(|s| s.to_string()).collect::<Vec<_>>();
+        let root = std::env::var("RV_ROOT").unwrap_or_else(|_| "/verif".into());
+        let Ok(src) = std::fs::read_to_string(format!("{}/coq/Gen/SdpTables.v", root)) else { return fallback() };
+        let Some(i) = src.find("Definition transport_keys : list string := [") else { return fallback() };
+        let rest = &src[i..];
+        let Some(j) = rest.find("].") else { return fallback() };
+        let body = &rest[rest.find('[').unwrap() + 1..j];
+        let keys: Vec<String> = body.split(';').filter_map(|x| x.trim().strip_suffix("%string").map(|y| y.trim_matches('"').to_string())).collect();
+        if keys.is_empty() { fallback() } else { keys }
+    })
+}
+fn is_transport_key(k: &str) -> bool {
+    transport_keys().iter().any(|x| x == k)
+}
 const SPECIAL_KEYS: [&str; 6] = ["sendrecv", "sendonly", "recvonly", "inactive", "mid", "connection"];
 
 /// a description that `parse` can return / `build_description` can build: keys without ':', no
@@ -232,7 +250,7 @@ fn only_transport_reorder(d: &SessionDescription, re: &SessionDescription) -> bo
     let mut n = d.clone();
     let mut moved = false;
     for s in &mut n.media_sections {
-        let (t, m): (Vec<Attribute>, Vec<Attribute>) = s.attributes.iter().cloned().partition(|a| TRANSPORT_KEYS.contains(&a.key.as_str()));
+        let (t, m): (Vec<Attribute>, Vec<Attribute>) = s.attributes.iter().cloned().partition(|a| is_transport_key(&a.key));
         let mut all = t;
         all.extend(m);
         if all != s.attributes {
